@@ -31,6 +31,11 @@ Local Ltac same :=
   | |- ?a = ?b => first [ constr_eq a b | fail 1 "generated code and hand model differ" ]
   end; reflexivity.
 
+(* the translator emits every spelling of "a >= b" (Cmp >= 0, Cmp != -1, !(Cmp < 0)) as
+   negb (a <? b); the hand model writes >=? *)
+Lemma geb_negb_ltb : forall a b : Z, (a >=? b) = negb (a <? b).
+Proof. intros a b. rewrite Z.geb_leb, Z.leb_antisym. reflexivity. Qed.
+
 Section Hashes.
   Variable blake512 : bytes -> bytes.
   Variable poseidon5 : list Z -> res Z.
@@ -43,7 +48,8 @@ Section Hashes.
     intros pk msg [R8 Sv].
     unfold babyjub_PublicKey_VerifyPoseidon, Eddsa.VerifyPoseidon, Eddsa.verify_with.
     cbn [fst snd].
-    destruct ((Sv <? 0) || (Sv >=? BabyJub.SubOrder)); [reflexivity|].
+    rewrite (geb_negb_ltb Sv BabyJub.SubOrder).
+    destruct ((Sv <? 0) || negb (Sv <? BabyJub.SubOrder)); [reflexivity|].
     destruct (poseidon5 [fst R8; snd R8; fst pk; snd pk; msg]) as [hm| |]; try reflexivity.
     cbv zeta. rewrite gen_babyjub_PointProjective_Add_eq. same.
   Qed.
@@ -55,7 +61,8 @@ Section Hashes.
     intros pk msg [R8 Sv].
     unfold babyjub_PublicKey_VerifyMimc7, Eddsa.VerifyMimc7, Eddsa.verify_with.
     cbn [fst snd].
-    destruct ((Sv <? 0) || (Sv >=? BabyJub.SubOrder)); [reflexivity|].
+    rewrite (geb_negb_ltb Sv BabyJub.SubOrder).
+    destruct ((Sv <? 0) || negb (Sv <? BabyJub.SubOrder)); [reflexivity|].
     destruct (mimc7h [fst R8; snd R8; fst pk; snd pk; msg]) as [hm| |]; try reflexivity.
     cbv zeta. rewrite gen_babyjub_PointProjective_Add_eq. same.
   Qed.
